@@ -1,7 +1,7 @@
 #!/bin/bash
 # tools/run_all.sh [tier] : run every registered check once, print the summary lines
 TIER="${1:-quick}"
-cd /verif
+cd "$(dirname "${BASH_SOURCE[0]}")/.."
 for id in $(python3 -c "import json;print(' '.join(c['property_id'] for c in json.load(open('MANIFEST.json'))['checks']))"); do
   OUT=$(./check $id $TIER 2>&1); RC=$?
   echo "$id rc=$RC $(echo "$OUT" | grep -E '^vcheck\[' | tail -1)"
